@@ -18,6 +18,7 @@ import (
 //	B3  a == b / a != b                 -> b == a / b != a      (operands without calls)
 //	B4  a < b, a <= b, a > b, a >= b    -> b > a, b >= a, b < a, b <= a
 //	B5  x == ""                         -> len(x) == 0
+//	B6  if c {…}                        -> b := c; if b {…}
 func genBenignVariants(p *Prog, fns map[string]bool) []variant {
 	var out []variant
 	seen := map[string]bool{}
@@ -115,6 +116,13 @@ func genBenignVariants(p *Prog, fns map[string]bool) []variant {
 					}
 					add(x.Pos(), x.Body.Lbrace+1, head, "range -> counting loop over `"+trunc(src(x.X), 40)+"`")
 				case *ast.IfStmt:
+					// B6: the condition moved into a boolean local (not for `else if`, not with an init statement)
+					if blk, ok := p.Parent(f.File, x).(*ast.BlockStmt); ok && blk != nil && x.Init == nil {
+						if _, isBin := ast.Unparen(x.Cond).(*ast.BinaryExpr); isBin {
+							nm := fmt.Sprintf("cnd%d", p.Fset.Position(x.Pos()).Line)
+							add(x.Pos(), x.Cond.End(), nm+" := "+src(x.Cond)+"\nif "+nm, "condition `"+trunc(src(x.Cond), 40)+"` moved into a local")
+						}
+					}
 					if x.Else == nil || x.Init != nil {
 						return true
 					}
